@@ -1,8 +1,8 @@
-\* C22 leg A thorough: one series rf 1..5, two series rf 2 on 3 nodes, 4 outcomes, timeout at any moment.
+\* C22 leg A thorough (1): one series rf 1..4 with all six outcomes and a local replica (rf 5: see _rf5.cfg), two series rf 2 on 3 nodes, 4 outcomes, timeout at any moment.
 \* cases: one series rf 1..5 (all multisets x arrangements = 4^rf runs), replicated, two series rf 2 on 3 nodes
 \* (every assignment x every order)
 SPECIFICATION Spec
-CONSTANTS RF1 = {1, 2, 3, 4, 5}
+CONSTANTS RF1 = {1, 2, 3, 4}
           RF2 = {2}
           N2 = 3
           Outcomes = {"ok", "conflict", "unavailable", "other", "noconn", "notready"}
